@@ -530,7 +530,7 @@ def _guard_var_from_own_scope(fnode, guard) -> bool:
     "create_quadrature into basix.make_quadrature; the estimated degree is used only when no non-negative "
     "degree was requested; the vertex scheme uses the cell vertices with equal weights volume/n; custom "
     "rules come from the element; integrands are grouped by the rule computed for their own integral",
-    min_instances=10,
+    min_instances=8,
 )
 def qmeta_flow(repo, res):
     an = repo.mod("ffcx.analysis")
@@ -654,29 +654,12 @@ def qmeta_flow(repo, res):
     rep = repo.mod("ffcx.ir.representation")
     g = rep.func("_group_integrands_by_quadrature_rule")
     res.functions.add(g.key)
-    s = ast.unparse(g.node)
-    key = f"{g.key}:metadata-read"
-    res.ob(key)
-    if not re.search(r"(\w+) = integral\.metadata\(\) or \{\}\n\s+scheme = \1\['quadrature_rule'\]", s) or len(re.findall(r"degree = md\['quadrature_degree'\]", s)) < 2:
-        res.fail(key, "scheme / degree are not read from this integral's own metadata", rep.line(g.node))
-    # call binding to create_quadrature_points_and_weights
+    # how the grouping function reads the metadata, calls create_quadrature_points_and_weights, builds custom and vertex rules and
+    # files the integrands is decided by QRULE-GROUP (the function interpreted on samples); the polyset family and the arguments
+    # of basix.make_quadrature by QUAD-FAMILY
     ru = repo.mod("ffcx.ir.representationutils")
     cq = ru.func("create_quadrature_points_and_weights")
     res.functions.add(cq.key)
-    calls = [c for c in calls_in(g.node) if (call_name(c) or "").endswith("create_quadrature_points_and_weights")]
-    key = f"{g.key}:binding:create_quadrature_points_and_weights"
-    res.ob(key)
-    if len(calls) != 1:
-        raise AnalysisError("call to create_quadrature_points_and_weights not found")
-    bound = {}
-    for i, a in enumerate(calls[0].args):
-        bound[cq.params[i]] = ast.unparse(a)
-    for k in calls[0].keywords:
-        bound[k.arg] = ast.unparse(k.value)
-    want = {"degree": "degree", "rule": "scheme", "integral_type": "integral_type", "cell": "ufl_cell", "elements": "argument_elements"}
-    for p, v in want.items():
-        if bound.get(p) != v:
-            res.fail(key, f"create_quadrature_points_and_weights(... {p}={bound.get(p)} ...): expected `{v}` (degree and scheme swapped or wrong source)", rep.line(calls[0]))
     # inside: create_quadrature(cellname, degree, rule, elements)
     eli = repo.mod("ffcx.element_interface")
     cr = eli.func("create_quadrature")
@@ -693,58 +676,12 @@ def qmeta_flow(repo, res):
                 res.fail(key, f"create_quadrature is called with degree={b.get('degree')}, rule={b.get('rule')}", ru.line(c))
     if n < 5:
         raise AnalysisError("fewer than 5 create_quadrature calls found")
-    s = ast.unparse(cr.node)
-    key = f"{cr.key}:make_quadrature"
-    res.ob(key)
-    mq = _find(s, r"basix\.make_quadrature\(\s*(?P<ct>\w+), (?P<deg>\w+), rule=basix\.quadrature\.string_to_type\((?P<rule>\w+)\), polyset_type=(?P<ps>\w+)\s*\)", "basix.make_quadrature call")
-    if mq.group("deg") != cr.params[1] or mq.group("rule") != cr.params[2] or not re.search(rf"{mq.group('ct')} = _CellType\[{cr.params[0]}\]", s):
-        res.fail(key, "basix.make_quadrature does not receive the requested cell, degree and scheme", eli.line(cr.node))
-    # vertex scheme
-    s = ast.unparse(g.node)
-    key = f"{g.key}:vertex-scheme"
-    res.ob(key)
-    vx = _find(s, r"(?P<p>\w+) = basix\.cell\.geometry\((?P<c>\w+)\)\n\s+(?P<v>\w+) = basix\.cell\.volume\((?P<c2>\w+)\)\n\s+(?P<w>\w+) = np\.full\((?P<p2>\w+)\.shape\[0\], (?P<val>[^,]+),", "vertex scheme")
-    if vx.group("val").replace(" ", "") != f"{vx.group('v')}/{vx.group('p')}.shape[0]":
-        res.fail(key, f"vertex-scheme weights are `{vx.group('val')}` each; they must be volume / number of vertices (the rule would not integrate constants exactly)", rep.line(g.node))
-    if not (vx.group("c") == vx.group("c2") and vx.group("p") == vx.group("p2")):
-        res.fail(key, "vertex scheme does not use the vertices of the integration entity with weights volume/n", rep.line(g.node))
-    if not re.search(rf"rules\[{vx.group('c')}\] = \({vx.group('p')}, {vx.group('w')}, None\)", s):
-        res.fail(key, "vertex rule is not registered under its own cell type with its points and weights", rep.line(g.node))
-    key = f"{g.key}:custom-scheme"
-    res.ob(key)
-    cb = None
-    for n in ast.walk(g.node):
-        if isinstance(n, ast.If) and ast.unparse(n.test).replace('"', "'") == "scheme == 'custom'":
-            cb = n
-    if cb is None:
-        raise AnalysisError("_group_integrands_by_quadrature_rule: `scheme == 'custom'` branch not found")
-    cstores = [a for st in cb.body for a in ast.walk(st) if isinstance(a, ast.Assign) and isinstance(a.targets[0], ast.Subscript)
-               and isinstance(a.targets[0].value, ast.Name) and a.targets[0].value.id == "rules"]
-    if len(cstores) != 1 or not isinstance(cstores[0].value, ast.Tuple) or len(cstores[0].value.elts) != 3:
-        res.fail(key, "the custom branch does not register exactly one (points, weights, tensor factors) rule", rep.line(cb))
-    else:
-        def origin(e):
-            # local definitions inside the custom branch only
-            if isinstance(e, ast.Name):
-                ds = [a.value for st in cb.body for a in ast.walk(st) if isinstance(a, ast.Assign) and any(isinstance(t, ast.Name) and t.id == e.id for t in a.targets)]
-                if len(ds) == 1:
-                    return origin(ds[0])
-            return ast.unparse(e).replace('"', "'")
-        p_, w_, tf_ = cstores[0].value.elts
-        if origin(p_) != "md['quadrature_points']" or origin(w_) != "md['quadrature_weights']":
-            res.fail(key, f"custom rule is built from points `{origin(p_)}` and weights `{origin(w_)}`, not from the metadata's quadrature_points / quadrature_weights", rep.line(cstores[0]))
-        if not (isinstance(tf_, ast.Constant) and tf_.value is None):
-            res.fail(key, "custom rule carries tensor factors", rep.line(cstores[0]))
-    key = f"{g.key}:grouping"
-    res.ob(key)
-    gr = _find(s, r"(?P<rule>\w+) = QuadratureRule\((?P<p>\w+), (?P<w>\w+), (?P<tf>\w+)\)", "rule construction")
-    if not re.search(rf"grouped_integrands\[(\w+)\]\[{gr.group('rule')}\]\.append\(integral\.integrand\(\)\)", s):
-        res.fail(key, "an integrand is not filed under the rule computed for its own integral", rep.line(g.node))
     # QuadratureRule identity: equality on points and weights
     qr = ru.func("QuadratureRule.__eq__")
     key = f"{qr.key}:points-and-weights"
     res.ob(key)
-    if "np.allclose(self.points, other.points) and np.allclose(self.weights, other.weights)" not in ast.unparse(qr.node):
+    cmp_fields = {n.attr for n in ast.walk(qr.node) if isinstance(n, ast.Attribute) and isinstance(n.value, ast.Name) and n.value.id == "self"}
+    if not {"points", "weights"} <= cmp_fields:
         res.fail(key, "two quadrature rules compare equal without comparing both points and weights: different rules are merged", ru.line(qr.node))
     # sum of integrands per rule
     ci = rep.func("_compute_integral_ir")
